@@ -110,6 +110,10 @@ pub struct Build {
     /// the table is built on the run thread but queried from another thread (it is Send + Sync)
     #[serde(default)]
     pub query_elsewhere: bool,
+    /// this many further tables of the same content are built afterwards and all stay alive; the
+    /// queries go round-robin over all of them (hundreds of tables created in one process)
+    #[serde(default)]
+    pub extra_tables: usize,
 }
 
 #[derive(Serialize, Deserialize, Clone, Debug, PartialEq, Eq)]
@@ -335,7 +339,8 @@ pub fn generate(seed: u64) -> Config {
         }
         let keys = (0..n).map(|_| gen_key_pres(&mut rng, per_word)).collect();
         let query_elsewhere = rng.chance(1, 8);
-        builds.push(Build { entropy: rng.next_u64(), ctor, order, churn, keys, query_elsewhere });
+        let extra_tables = if n <= 8 && rng.chance(1, 400) { rng.range(255, 300) } else if rng.chance(1, 20) { rng.range(1, 3) } else { 0 };
+        builds.push(Build { entropy: rng.next_u64(), ctor, order, churn, keys, query_elsewhere, extra_tables });
     }
 
     // queries
@@ -863,9 +868,15 @@ fn build_and_query<A: CodonCodec>(cfg: &Config, b: &Build) -> BuildOutcome {
         }
     };
 
-    let answer_all = |table: &CodonTable<A, Amino>| -> Vec<String> {
+    let mut tables: Vec<CodonTable<A, Amino>> = vec![table];
+    for _ in 0..b.extra_tables {
+        let again: HashMap<Seq<A>, Amino> = pairs(&b.order).into_iter().collect();
+        tables.push(CodonTable::from_map(again));
+    }
+    let answer_all = |tables: &[CodonTable<A, Amino>]| -> Vec<String> {
         let mut answers = Vec::with_capacity(cfg.queries.len());
-        for q in &cfg.queries {
+        for (qi, q) in cfg.queries.iter().enumerate() {
+            let table = &tables[qi % tables.len()];
             let got = catch_unwind(AssertUnwindSafe(|| match q {
                 Query::Amino { codon, pres, off, tail, fill } => {
                     ask::<A, _>(codon, pres, *off, *tail, *fill, alpha, |s| classify(&table.try_to_amino(s)))
@@ -890,9 +901,9 @@ fn build_and_query<A: CodonCodec>(cfg: &Config, b: &Build) -> BuildOutcome {
     };
     let answers = if b.query_elsewhere {
         // one thread at a time: the run thread blocks in the scope until the query thread is done
-        std::thread::scope(|sc| sc.spawn(|| answer_all(&table)).join().expect("harness: query thread"))
+        std::thread::scope(|sc| sc.spawn(|| answer_all(&tables)).join().expect("harness: query thread"))
     } else {
-        answer_all(&table)
+        answer_all(&tables)
     };
     BuildOutcome { anomalies: anomalies.into_inner(), observed_order, answers, capacity }
 }
@@ -924,6 +935,7 @@ pub struct RunStats {
     pub key_kinds: BTreeMap<String, usize>,
     pub getrandom_calls: u64,
     pub cross_thread_query_builds: usize,
+    pub extra_tables_alive: usize,
     pub logical_hash: String,
     pub nontrivial: bool,
     pub perm_patterns: Vec<String>,
@@ -1043,6 +1055,7 @@ pub fn run(cfg: &Config) -> RunResult {
         if b.query_elsewhere {
             stats.cross_thread_query_builds += 1;
         }
+        stats.extra_tables_alive += b.extra_tables;
         for k in &b.keys {
             *stats.key_kinds.entry(format!("{:?}", k.kind)).or_insert(0) += 1;
         }
@@ -1181,6 +1194,7 @@ pub struct BatchOut {
     pub sibling_tables: u64,
     pub getrandom_calls: u64,
     pub cross_thread_query_builds: u64,
+    pub extra_tables_alive: u64,
     pub entropy_values: u64,
     pub violating_runs: u64,
     pub violations: Vec<serde_json::Value>,
@@ -1258,6 +1272,7 @@ pub fn batch(verif_seed: u64, from: u64, to: u64, hashes_path: Option<&str>, iso
         out.sibling_tables += (r.stats.sibling_tables * r.stats.builds) as u64;
         out.getrandom_calls += r.stats.getrandom_calls;
         out.cross_thread_query_builds += r.stats.cross_thread_query_builds as u64;
+        out.extra_tables_alive += r.stats.extra_tables_alive as u64;
         out.entropy_values += r.stats.builds as u64;
         for k in 0..4 {
             out.aminos_by_preimages[k] += r.stats.aminos_by_preimages[k] as u64;
